@@ -39,6 +39,23 @@ def run(cx):
         _, sp = langlib.gen_shapes(cx, fam)
         sources.append(("shapes-" + fam, sp))
 
+    # code compiled INCREMENTALLY (one compiler, many inputs, some of them refused by the compiler or failing at run
+    # time - C18's histories): what the compiler holds after the last input must serialise, load and re-serialise
+    pg = cx.path("pieces.ndjson")
+    cx.run([lang, "pieces-gen", "-seed", str(cx.seed * 1000 + 17), "-n", str(400 if cx.quick() else 6000), "-depth", "3", "-out", pg], timeout=2400)
+    nhist = 0
+    for r in vlib.read_ndjson(pg):
+        res = r["res"]
+        if res.get("k") != "done":
+            continue
+        nhist += 1
+        if res.get("marshal") not in ("ok", "n/a"):
+            if len([1 for v in cx.violations]) < 8:
+                cx.violation("incrementally compiled code does not survive the serialiser (%s): inputs=%s" % (
+                    res.get("marshal"), json.dumps([p.get("src") for p in r["pieces"]])[:600]),
+                    {"leg": "incremental", "pieces": [p.get("src") for p in r["pieces"]], "marshal": res.get("marshal")})
+    cx.cover["incremental_histories_serialised"] = nhist
+
     programs = disagreements = unknown_total = 0
     nontriv = set()
     for label, path in sources:
